@@ -1133,7 +1133,9 @@ Proof.
     { intros j g [[_ ->]|[Hbl _]]; [reflexivity|discriminate]. }
     cbn [fst snd] in Hgx. destruct Hgx as [[-> _]|[_ [row' [fr [fv [Hn' [Hr' HF]]]]]]]; [discriminate|].
     cbn [pred] in Hn'. rewrite Hn in Hn'. injection Hn' as <-. rewrite Hr in Hr'. injection Hr' as <-.
-    rewrite Sr in HF. inversion HF as [|? f ? g' [Hpf [Hnm Hef]] HF']; subst. inversion HF'; subst.
+    rewrite Sr in HF.
+    destruct g as [|f [|f2 g']]; [inversion HF| |inversion HF as [|? ? ? ? _ HF']; inversion HF'].
+    inversion HF as [|? ? ? ? [Hpf [Hnm Hef]] _]. clear HF.
     (* the field object is the explicit one *)
     assert (Hun : upper (name_idx sn (S k)) = name_idx sn (S k)) by now rewrite name_idx_upper, Hup.
     pose proof (field_ctor_ref (name_idx sn (S k)) (SLeaf inf) _ fv Hun (leaf_structure t inf)) as Hct.
